@@ -363,6 +363,79 @@ def long_failures(ctx, dist=None, started=None):
     return len(jobs), fails[:6]
 
 
+# ---- file names without a language extension x every prefix of a first line --------------------------------------------
+
+FIRST_LINES = ["#!/usr/bin/env python3", "#!/usr/bin/python", "#! /usr/bin/env node", "#!/usr/bin/env -S ts-node --files", "#!/bin/sh", "# -*- coding: utf-8 -*-",
+               "<?php", "<?xml version='1.0'?>", "%!PS-Adobe", "@echo off", "// @ts-check", "/* eslint-disable */", "\ufeff#!/usr/bin/env python"]
+
+
+def first_line_files(ctx):
+    """-> [(file name, bytes)]: names Pygments maps to NO lexer (no extension, hidden, trailing dot; plain words and the
+    string literals new in the source) and, as controls, names of the seven languages; contents: every prefix of a first
+    line (interpreter lines, encoding / mode lines, lines built from the words new in the source: `#!w`, `#!/usr/bin/w`,
+    `#!/usr/bin/env w`), alone, with a line end (LF, CR LF, blank + LF) and followed by a small program"""
+    from gen import names as gnames
+    from gen import srcdict
+    rnd = ctx.rng("c03firstline")
+    novel = [w for w in srcdict.words(novel_only=True) if w.strip() and w.isprintable() and "/" not in w][:12]
+    lines = list(FIRST_LINES)
+    for w in novel:
+        lines += ["#!" + w, "#!/usr/bin/" + w, "#!/usr/bin/env " + w, w, w + " " + rnd.choice(novel)]
+    names = ["release", "deploy", "run-tests", "noext_", ".hidden", "tool.", "README", "LICENSE"] + [w for w in novel if w.replace("-", "").replace("_", "").isalnum()][:6]
+    names = [n for n in names if gnames.resolves_to(n) is None]
+    controls = ["unit." + sr.EXT[l] for l in sr.LANGS]
+    bodies = {"py": "def f(a):\n    return a\n", "js": "function f(a) {\n  return a;\n}\n"}
+    contents = []
+    for line in lines:
+        for k in range(len(line) + 1):
+            p = line[:k]
+            contents += [p, p + "\n", p + rnd.choice(["\r\n", " \n", "\t\n", "\n\n"]) + rnd.choice(list(bodies.values()))]
+    contents = sorted(set(contents))
+    if len(contents) > ctx.pick(1500, 20000):
+        contents = rnd.sample(contents, ctx.pick(1500, 20000))
+    out = []
+    for i, c in enumerate(contents):
+        out.append((names[i % len(names)], c.encode("utf-8")))
+        if i % 7 == 0:
+            out.append((rnd.choice(names), c.encode("utf-8")))
+        if i % 10 == 0:
+            out.append((rnd.choice(controls), c.encode("utf-8")))
+    return out
+
+
+def first_line_failures(ctx, dist=None):
+    """all files in one tree (one directory each): Scanner.scan_path completes, commands.check.check_file completes on each;
+    a failing scan is narrowed to one file"""
+    import file_front as ff
+    files = first_line_files(ctx)
+    fails = []
+    with ff.Tree("c03first_") as tree:
+        for i, (name, data) in enumerate(files):
+            tree.write(os.path.join("d%05d" % i, name), data)
+        cb, err = tree.scan()
+        if err:
+            hit = None
+            for i, (name, data) in enumerate(files):
+                cb1, err1 = tree.scan(None, os.path.join(tree.root, "d%05d" % i))
+                if err1:
+                    hit = (name, data, err1)
+                    if len(fails) >= 5:
+                        break
+                    fails.append({"input": {"stream": "first-line", "name": name, "content_latin1": data.decode("latin-1"), "through": "scan_path"}, "observed": "scan_path: " + err1,
+                                  "required": "a scan of a tree containing the file completes"})
+            if hit is None:
+                fails.append({"input": {"stream": "first-line", "files": len(files)}, "observed": "scan_path: " + err, "required": "a scan of the tree completes"})
+        for i, (name, data) in enumerate(files):
+            res, err2 = ff.check_file_risks(os.path.join(tree.root, "d%05d" % i, name))
+            if err2 and sum(1 for f in fails if f["input"].get("through") == "check_file") < 5:
+                fails.append({"input": {"stream": "first-line", "name": name, "content_latin1": data.decode("latin-1"), "through": "check_file"}, "observed": "check_file: " + err2,
+                              "required": "check on the file completes"})
+    fails.sort(key=lambda f: len(f["input"].get("content_latin1", "x" * 999)))
+    if dist is not None:
+        dist["first_line_files"] = {"files": len(files), "names_without_a_lexer": len({n for (n, _) in files if "unit." not in n})}
+    return len(files), fails
+
+
 def _correspond_main(ctx):
     cs = cases(ctx)
     ccs, npumps = comment_cases(ctx)
@@ -396,6 +469,9 @@ def _correspond_main(ctx):
     dist["long_lines"] = {}
     nlong, lfails = long_failures(ctx, dist, heavy)
     fails = lfails + fails
+    nfirst, ffails = first_line_failures(ctx, dist)
+    fails = ffails[:6] + fails
+    nlong += nfirst
     runs, cfails = cli_runs(ctx)
     fails += cfails
     lruns, lcfails = cli_long_runs(ctx)
@@ -407,7 +483,7 @@ def _correspond_main(ctx):
     dist["without_any_newline"] = sum(1 for (_, c) in cs if "\n" not in c)
     return {
         "evaluations": len(cs) + len(runs) + nlong, "distinct_nontrivial": len(nontrivial) + len(runs) + nlong,
-        "rule": "every in-process analysis runs under a time limit (20 s per text of the small streams, 60 s + 0.5 ms per character on the single-line ladder; no result in time = the property's `hang`); comment stream: small programs around one comment put together from the syntax of many languages, rulers of 3 .. 100 characters, string literals of the code under check and, for regular expressions new in the source, their literal runs mixed with long runs of each of their characters; words that are new in the source: every sequence of up to 3 (thorough: 4) of them and ( ) { between parameter list and body / inside the parameter list of a function of each language; CLI tree: also files of 2-4 long functions whose names are drawn with replacement (same name, same length); single-line ladder: files of 10^2 .. 3.2*10^6 characters on ONE line (string literal, block comment followed by a function, short statements, one-line function; without any newline / with a final newline / as second line; a quarter behind a byte order mark) analysed in-process and, for a sample, through `codelimit scan|check` subprocesses; a share of the malformed stream behind a byte order mark / on one line / with a Unicode separator; malformed stream (every kind of prefix/suffix/edit of canonical programs and corpus files, token soups per language, tiny inputs, deep nesting up to the stated depth) analysed in-process, compared with the model; plus %d subprocess runs of `python -m codelimit scan|check` over a tree of such files incl. non-UTF-8 and empty files, named relatively, absolutely, via directories and from other working directories; non-trivial = inputs analysed to completion" % len(runs),
+        "rule": "FIRST LINES: files whose NAME Pygments maps to no lexer (no extension, hidden, trailing dot, the string literals new in the source as names; controls named for the seven languages) x every prefix of a first line (interpreter lines `#!...python/node/ts-node/sh`, `env` forms, encoding / mode lines, a byte order mark, lines built from the words new in the source), alone / with LF / CR LF / blank + LF / followed by a small program, in one tree through Scanner.scan_path and one by one through commands.check.check_file; every in-process analysis runs under a time limit (20 s per text of the small streams, 60 s + 0.5 ms per character on the single-line ladder; no result in time = the property's `hang`); comment stream: small programs around one comment put together from the syntax of many languages, rulers of 3 .. 100 characters, string literals of the code under check and, for regular expressions new in the source, their literal runs mixed with long runs of each of their characters; words that are new in the source: every sequence of up to 3 (thorough: 4) of them and ( ) { between parameter list and body / inside the parameter list of a function of each language; CLI tree: also files of 2-4 long functions whose names are drawn with replacement (same name, same length); single-line ladder: files of 10^2 .. 3.2*10^6 characters on ONE line (string literal, block comment followed by a function, short statements, one-line function; without any newline / with a final newline / as second line; a quarter behind a byte order mark) analysed in-process and, for a sample, through `codelimit scan|check` subprocesses; a share of the malformed stream behind a byte order mark / on one line / with a Unicode separator; malformed stream (every kind of prefix/suffix/edit of canonical programs and corpus files, token soups per language, tiny inputs, deep nesting up to the stated depth) analysed in-process, compared with the model; plus %d subprocess runs of `python -m codelimit scan|check` over a tree of such files incl. non-UTF-8 and empty files, named relatively, absolutely, via directories and from other working directories; non-trivial = inputs analysed to completion" % len(runs),
         "samples": [{"language": l, "code": c[:100], "impl": r[:80]} for (l, c), r in list(zip(cs, real))[7:10]] + runs[:4],
         "exhaustive": False, "distribution": dist,
         "disagreements": dis[:50], "oracle_failures": fails[:50],
@@ -423,11 +499,19 @@ def search(ctx, hints):
     fails += [hang_failure({"stream": "text", "language": l, "code": c}, r) for (l, c), r in zip(cs, real) if r.startswith("hang")]
     fails.sort(key=lambda f: len(f["input"]["code"]))
     _, cf = cli_runs(ctx)
-    return long_failures(ctx)[1][:3] + fails[:8] + cf[:4] + cli_long_runs(ctx)[1][:2]
+    return first_line_failures(ctx)[1][:3] + long_failures(ctx)[1][:3] + fails[:8] + cf[:4] + cli_long_runs(ctx)[1][:2]
 
 
 def replay(payload):
     inp = payload["input"]
+    if inp.get("stream") == "first-line" and "name" in inp:
+        import file_front as ff
+        with ff.Tree("c03first_") as tree:
+            path = tree.write(os.path.join("d", inp["name"]), inp["content_latin1"].encode("latin-1"))
+            cb, err = tree.scan()
+            res, err2 = ff.check_file_risks(path)
+        print("file %r with content %r -> scan_path: %s; check_file: %s" % (inp["name"], inp["content_latin1"][:80], err or "completes", err2 or "completes"))
+        return not err and not err2
     if inp.get("stream") == "cli":
         root = tempfile.mkdtemp(prefix="c03r_")
         other = tempfile.mkdtemp(prefix="c03rc_")
